@@ -10,6 +10,7 @@ import (
 	"path/filepath"
 	"sort"
 	"strings"
+	"sync"
 	"time"
 
 	"github.com/glauth/ldap"
@@ -303,6 +304,81 @@ func suiteV04(c *vctx) {
 				}
 				c.emit("law.C04.cli_equals_store "+id+fmt.Sprintf(" exit=%d", code), vtf((code == 0) == refOk && code >= 0))
 			}
+		}
+		// management beside logins: while the administrator flag of a user is toggled (her record is
+		// renamed back and forth), every frontend keeps returning the store's verdict for her — which
+		// is constant: the flag does not change the password
+		if sc%2 == c.shard%2 {
+			dur := 1200 * time.Millisecond
+			if c.thorough() {
+				dur = 6 * time.Second
+			}
+			u, good, bad := "carol", pws["carol"], "Wrong-Passw0rd"
+			stop := make(chan bool)
+			var wg sync.WaitGroup
+			var mu sync.Mutex
+			wrong := map[string]int{}
+			total := 0
+			worker := func(name string, try func(pw string) (verdict, got bool)) {
+				defer wg.Done()
+				for k := 0; ; k++ {
+					select {
+					case <-stop:
+						return
+					default:
+					}
+					pw, want := good, true
+					if k%4 == 3 {
+						pw, want = bad, false
+					}
+					v, got := try(pw)
+					mu.Lock()
+					if got {
+						total++
+						if v != want {
+							wrong[name]++
+						}
+					}
+					mu.Unlock()
+				}
+			}
+			wg.Add(4)
+			go worker("sasl-socket", func(pw string) (bool, bool) {
+				ok, _, err := client.Auth(u, pw, "svc", "realm")
+				return ok, err == nil
+			})
+			go worker("basic-auth", func(pw string) (bool, bool) {
+				req := httptest.NewRequest("GET", "/basic-auth", nil)
+				req.SetBasicAuth(u, pw)
+				rec := httptest.NewRecorder()
+				a.mux.ServeHTTP(rec, req)
+				return rec.Code == 200, true
+			})
+			go worker("api-authenticate", func(pw string) (bool, bool) {
+				body, _ := json.Marshal(map[string]string{"username": u, "password": pw})
+				rec := httptest.NewRecorder()
+				a.mux.ServeHTTP(rec, httptest.NewRequest("POST", "/api/authenticate", strings.NewReader(string(body))))
+				return rec.Code == 200, true
+			})
+			go worker("ldap", func(pw string) (bool, bool) {
+				if ldapAddr == "" {
+					time.Sleep(10 * time.Millisecond)
+					return false, false
+				}
+				return ldapBindVerdict(ldapAddr, u, pw)
+			})
+			toggles := 0
+			for end := time.Now().Add(dur); time.Now().Before(end); toggles++ {
+				a.iface.SetAdmin(u, toggles%2 == 0)
+			}
+			close(stop)
+			wg.Wait()
+			var bad2 []string
+			for k, v := range wrong {
+				bad2 = append(bad2, fmt.Sprintf("%s:%d", k, v))
+			}
+			sort.Strings(bad2)
+			c.emit(fmt.Sprintf("law.C04.frontends_equal_store_while_flag_toggles scenario=%d toggles>0=%s logins>0=%s wrong=%s", sc, vtf(toggles > 0), vtf(total > 0), strings.Join(bad2, ",")), vtf(len(wrong) == 0 && total > 0))
 		}
 		os.Remove(sock)
 	}
